@@ -1,5 +1,6 @@
 """C01 Census of reachable objects is exact."""
-from ._camp import run_campaign
+from ._camp import run_campaign, api_delay_stage
+from .. import oracle as _O
 
 LEVEL = "exploration"
 
@@ -25,5 +26,6 @@ def run(chk, b, tier):
                  "/ both); the 8 census numbers of --json are compared with the reference model's reachable set from "
                  "{refs marked '+' by --show-refs} U {ROOT objects}. A run is non-trivial when >=3 objects are reachable; "
                  "distinct = distinct (repository, argv) pairs.", permute=0.2)
+    api_delay_stage(chk, b, _O.CENSUS_KEYS + (["reference_count"] if "C01" == "C01" else []), "C01", 6 if tier == "quick" else 150)
     chk.assumptions += ["reference model (vf/oracle.py) and generator are trusted; generator self-checked against git cat-file",
                         "git 2.39.5 is the only git"]
